@@ -286,11 +286,21 @@ def counter_width(ctx, rule):
         m += 1
         ok = False
         why = "no test on the path"
-        if lf.conds:
-            t = look(lf.conds[-1][0])
-            x = look(t[1]) if t[0] == "discr" else t
-            while x[0] == "call" and last_seg(x[1]) in ("branch", "ok_or", "ok_or_else", "map_err", "is_none", "is_some", "ok", "and_then", "map") and x[1].split("::")[0] in ("core", "std") and x[2]:
-                x = look(x[2][0])
+        if lf.conds or rk[0] == "prop":
+            if rk[0] == "prop":
+                # `checked_add(..).ok_or(Overflow)?`: the value whose failure is handed on
+                t = look(rk[1])
+                x = t
+            else:
+                t = look(lf.conds[-1][0])
+                x = look(t[1]) if t[0] == "discr" else t
+            while True:
+                if x[0] == "residual":
+                    x = look(x[1])
+                elif x[0] == "call" and last_seg(x[1]) in ("from_residual", "branch", "ok_or", "ok_or_else", "map_err", "is_none", "is_some", "ok", "and_then", "map") and x[1].split("::")[0] in ("core", "std") and x[2]:
+                    x = look(x[2][0])
+                else:
+                    break
             ok = x[0] == "call" and last_seg(x[1]) == "checked_add" and x[1].split("::")[0] in ("core", "std") and any(isinstance(y, tuple) and y and y[0] == "field" and y[3] == "in_flight_response_count" for y in subterms(x[2][0]))
             if not ok and x[0] == "call" and last_seg(x[1]) in ("try_from", "try_into") and x[1].startswith(("std::convert::", "core::convert::")):
                 ok = True       # the checked conversion of the number of requests into the counter's type (fails instead of truncating)
